@@ -594,6 +594,26 @@ func (s *Store) reapInternal() (int, int, error) {
 			p.NReaped++
 		}
 	} else if len(walFiles) > 0 {
+		// The consolidation below reads these files and then records a fresh
+		// CRC32 for the result, so corruption that crept in since the store's
+		// one-time verification would be given a valid checksum and become
+		// undetectable. Check the files about to be consumed against their
+		// recorded checksums first. This happens before the plan is written,
+		// so a failure leaves the store exactly as it was.
+		checker := NewCRCChecker()
+		checker.Add(full.dbFile)
+		for _, wf := range full.walFiles {
+			checker.Add(wf)
+		}
+		for _, snap := range newerSet.All() {
+			for _, wf := range snap.walFiles {
+				checker.Add(wf)
+			}
+		}
+		if err := <-checker.Check(); err != nil {
+			return 0, 0, fmt.Errorf("verifying snapshot data before consolidation: %w", err)
+		}
+
 		// 1. Checkpoint all WAL files into the full snapshot's DB. We do it this way
 		// because presumably the full snapshot DB is the largest file and it generally
 		// makes sense to move the WAL files to it.
